@@ -183,8 +183,13 @@ class SymEnv(Env):
         """The path reached a state that violates the property outright."""
         self._add(name, z3.BoolVal(False), 'bool', core, {'why': why}, key)
 
-    def patch(self, modules, overrides=None, extra=None):
-        return npshim.patched(modules, npshim.SymNP(overrides), extra)
+    def patch(self, modules, overrides=None, extra=None, sym_extra=None):
+        """`extra`: stubs of the environment ((module, name) -> value) applied in both
+        modes; `sym_extra`: replacements that only make sense symbolically (exact
+        irrational constants)."""
+        ex = dict(extra or {})
+        ex.update(sym_extra or {})
+        return npshim.patched(modules, npshim.SymNP(overrides), ex)
 
     def stop(self):
         raise Outcome()
@@ -248,10 +253,17 @@ class ReplayEnv(Env):
         self._rec(name, False, {'why': why})
 
     @contextlib.contextmanager
-    def patch(self, modules, overrides=None, extra=None):
-        # unpatched code: real NumPy.  `extra` (module-global constant
-        # replacements such as exact sqrt(3)) are not applied either.
-        yield _np
+    def patch(self, modules, overrides=None, extra=None, sym_extra=None):
+        # unpatched code: real NumPy.  Only the environment stubs (`extra`) are applied.
+        saved = []
+        try:
+            for (m, name), val in (extra or {}).items():
+                saved.append((m, name, getattr(m, name)))
+                setattr(m, name, val)
+            yield _np
+        finally:
+            for m, name, val in reversed(saved):
+                setattr(m, name, val)
 
     def stop(self):
         raise Outcome()
